@@ -8,8 +8,11 @@ COQ_TARGETS = ["Properties/C15.vo", "Server/Cases.vo"]
 LEVEL = "proof"
 TECHNIQUE = ("Coq theorems over all states, requests and oracle tapes (an error value or a panic at any backend call index) about the Gallina model of the handlers and of "
              "connState.handle's recover; tied to the code by go2coq HandlerGen (deferred DecRef, bracketing) and a fault-injection differential")
-LEVEL_TEXT = ("For every tape: a panicking backend call yields Rlerror EFAULT; a failing call yields Rlerror(ExtractErrno e) with the fid table unchanged "
-              "(Tclunk/Tremove minus their fid) and every File obtained during the request closed; the next request on any connection is answered from a well-formed state. "
+LEVEL_TEXT = ("For every tape: a panicking backend call yields Rlerror EFAULT; the reply to a request in which a backend call failed is Rlerror(ExtractErrno e) of the FIRST failing call "
+              "for every request kind and call index (C15_first_fault_reply: multi-component walks incl. the GetAttr fallback, attach, rename, remove, xattr, clunk; side conditions: the handler itself "
+              "does not panic, and for Tclunk/Tremove no Close of the request failed), with the fid table unchanged (Tclunk/Tremove minus their fid); the next request on any connection is answered "
+              "from a well-formed state. 'Every File obtained during the failed request is closed' is proved only for the walkOne GetAttr fallback (C15_obtained_closed_partial) and otherwise "
+              "evaluated on every observed faulted request (created_handles / closed_in in c15_step). "
               "Every run injects errors and panics at backend call indices of generated histories on the real server and replays the same tapes in the model.")
 LEVEL_NOTE = ("Trusted: Coq kernel + vm_compute; Go's defer/recover semantics as modelled by with_defer and step; locks are outside this model (C16/C07 lock graph). "
               "After a panic Files obtained earlier in that request are not claimed closed (the walk reference is dropped by a plain call, not a defer).")
@@ -22,7 +25,8 @@ TRUSTED_BASE = [
     "Coq 8.16.1 kernel, vm_compute",
     "axioms: none",
     "go2coq HandlerGen + ConstGen",
-    "hand-written model Server/*.v; harness/p9/vhsrv_*_test.go, c15_fault_test.go",
+    "hand-written model Server/*.v; harness/p9/vhsrv_*_test.go, c04_hist_test.go (fixed-history runner), c15_fault_test.go",
+    "lib/vsrv.py (python translation of observed histories into Coq cases)",
 ]
 WHICH = "P15"
 TEST = "^TestVerifC15$"
